@@ -51,6 +51,19 @@ def _tol_ok(got, ref, mag, dt, ulps=8):
     return bool(np.all(ok))
 
 
+def _overlaps(x, res):
+    """True if an operand is (in part) the output: it holds part objects / memory of ``res`` (p[::-1] of the output p).  Such an
+    operand changes with the output by construction; "operands that are not the output" does not apply to it."""
+    try:
+        for _p, a in _leaf_arrays(x):
+            for _q, b in _leaf_arrays(res):
+                if a.size and b.size and np.shares_memory(a, b):
+                    return True
+    except Exception:
+        return False
+    return False
+
+
 class Contract(object):
     """Record-only contract on LinearSpace.lincomb / multiply / divide."""
 
@@ -139,9 +152,9 @@ class Contract(object):
                         okv = bool(np.array_equal(got, ref.astype(got.dtype)))
                     if not okv:
                         ctx.violation(comp, cfg, 'wrong-value', got=got[:8], ref=ref[:8], a=a, b=b)
-                if x1 is not res and not np.array_equal(_flat(self, x1), A1, equal_nan=True):
+                if x1 is not res and not _overlaps(x1, res) and not np.array_equal(_flat(self, x1), A1, equal_nan=True):
                     ctx.violation(comp, cfg, 'operand-modified', which='x1')
-                if x2 is not None and x2 is not res and not np.array_equal(_flat(self, x2), A2, equal_nan=True):
+                if x2 is not None and x2 is not res and not _overlaps(x2, res) and not np.array_equal(_flat(self, x2), A2, equal_nan=True):
                     ctx.violation(comp, cfg, 'operand-modified', which='x2')
             except Exception as e:
                 ctx.note_add('monitor-exception:' + type(e).__name__)
@@ -185,9 +198,9 @@ class Contract(object):
                             ref = npfun(A1, A2)
                             if not np.array_equal(got, ref):
                                 ctx.violation(comp, cfg, 'wrong-value', got=got[:8], ref=ref[:8])
-                    if x1 is not res and not np.array_equal(_flat(self, x1), A1, equal_nan=True):
+                    if x1 is not res and not _overlaps(x1, res) and not np.array_equal(_flat(self, x1), A1, equal_nan=True):
                         ctx.violation(comp, cfg, 'operand-modified', which='x1')
-                    if x2 is not res and not np.array_equal(_flat(self, x2), A2, equal_nan=True):
+                    if x2 is not res and not _overlaps(x2, res) and not np.array_equal(_flat(self, x2), A2, equal_nan=True):
                         ctx.violation(comp, cfg, 'operand-modified', which='x2')
                 except Exception as e:
                     ctx.note_add('monitor-exception:' + type(e).__name__)
@@ -930,6 +943,39 @@ def run_shared_buffer(ctx):
                     ctx.violation('api:' + fname, 'shared-buffer;' + cfg, 'raises:' + type(e).__name__, message=str(e)[:200])
 
 
+def run_permuted_parts(ctx):
+    """An operand that holds the part objects of the output in another order (p[::-1], p[[1, 2, 0]] share the parts of p):
+    every part has to be read before it is overwritten."""
+    rng = ctx.rng('permuted-parts')
+    spaces = [('rn3^2', odl.ProductSpace(odl.rn(3), 2)), ('rn150^3', odl.ProductSpace(odl.rn(150), 3)), ('discr^3', odl.ProductSpace(odl.uniform_discr(0, 1, 4), 3)),
+              ('cn4^2;w', odl.ProductSpace(odl.cn(4), 2, weighting=[1.0, 2.0]))]
+    forms = [('p+=q', lambda p, q: p.__iadd__(q), lambda P, Q: P + Q), ('p-=q', lambda p, q: p.__isub__(q), lambda P, Q: P - Q),
+             ('p*=q', lambda p, q: p.__imul__(q), lambda P, Q: P * Q), ('p/=q', lambda p, q: p.__itruediv__(q), lambda P, Q: P / Q),
+             ('lincomb(2,p,3,q,out=p)', lambda p, q: p.space.lincomb(2.0, p, 3.0, q, out=p), lambda P, Q: 2 * P + 3 * Q),
+             ('lincomb(2,q,3,p,out=p)', lambda p, q: p.space.lincomb(2.0, q, 3.0, p, out=p), lambda P, Q: 2 * Q + 3 * P),
+             ('multiply(q,p,out=p)', lambda p, q: p.space.multiply(q, p, out=p), lambda P, Q: P * Q)]
+    for (sname, sp), (fname, fn, ref) in itertools.product(spaces, forms):
+        n = len(sp)
+        for pname, perm in (('reversed', slice(None, None, -1)), ('rotated', list(range(1, n)) + [0])):
+            ctx.ev('api-differential')
+            ctx.case('permuted-parts;%s;%s' % (sname, fname), pname)
+            try:
+                p = sp.element([rng.uniform(0.5, 2.0, size=s_.shape) * (1 if not s_.is_complex else (1 + 0.5j)) for s_ in sp])
+                P = np.array([np.asarray(a_).copy() for a_ in p.parts])
+                q = p[perm]
+                Q = P[perm]
+                if q not in sp:
+                    ctx.skip('the permuted element lies in another space (per-component weights are permuted with the parts)')
+                    continue
+                fn(p, q)
+                got = np.array([np.asarray(a_) for a_ in p.parts])
+                want = ref(P, Q)
+                if not np.allclose(got, want, rtol=1e-13, atol=0):
+                    ctx.violation('api:' + fname, 'pspace;operand=own-parts-%s' % pname, 'wrong-value', space=sname, got=got.ravel()[:6], ref=want.ravel()[:6])
+            except Exception as e:
+                ctx.violation('api:' + fname, 'pspace;operand=own-parts-%s' % pname, 'raises:' + type(e).__name__, message=str(e)[:200])
+
+
 def run(ctx):
     ctx.note('rule', 'cases = (API form | lincomb lattice point) x space x layouts x aliasing pattern x scalar '
                      'classes x seeded values; distinct = distinct (class, shape/layout/scalar-name/repetition) '
@@ -956,6 +1002,7 @@ def run(ctx):
     run_zero_divisors(ctx)
     if ctx.shard == 0:
         run_shared_buffer(ctx)
+        run_permuted_parts(ctx)
     if ctx.thorough and ctx.shard == 0 and ctx.round == 0:
         # W-ambient: the contract on every lincomb / multiply / divide the repository's own suite executes
         from .c03 import ambient_suite
